@@ -115,3 +115,34 @@ func ZZ_C16_evict() {
 	zzvt.Assert(cs.keyLevelCache.Len() <= types.MaxKeyLevelCacheSize, "cache-within-capacity")
 	zzvt.Assert(cs.ComputeStateRootWithCache(kvs) == want, "second-computation-agrees")
 }
+
+// ZZ_C16_history: every history of five cached root computations in which one key is absent or
+// takes one of three values (two hashed ones and an embedded one) while a second key is
+// present in every other computation and a third stays put: after each computation the cached root
+// equals the uncached root (4^5 histories, digests computed concretely). This reaches
+// behaviour that depends on more than the previous computation (a value returning to an earlier
+// one and then staying), which the one-step harness reaches only for cache contents that
+// PutLeafHash can build in one call.
+//zz:workers=16 paths=60000
+func ZZ_C16_history() {
+	zzvt.ConcreteHashes()
+	cs := ZZFresh()
+	if cs.keyLevelCache == nil {
+		cs.keyLevelCache = NewKeyLevelCache()
+	}
+	vals := [][]byte{nil, make([]byte, 33), make([]byte, 33), make([]byte, 32)}
+	vals[1][0], vals[2][0], vals[3][0] = 0xA1, 0xB2, 0xC3
+	for step := 0; step < 5; step++ {
+		var kvs types.StateKeyVals
+		if c := zzvt.Range("value", 0, 3); c > 0 {
+			kvs = append(kvs, types.StateKeyVal{Key: zzPoolKey(0), Value: vals[c]})
+		}
+		if step%2 == 1 {
+			kvs = append(kvs, types.StateKeyVal{Key: zzPoolKey(1), Value: vals[1]})
+		}
+		kvs = append(kvs, types.StateKeyVal{Key: zzPoolKey(2), Value: []byte{7}})
+		want := m.MerklizationSerializedState(kvs)
+		got := cs.ComputeStateRootWithCache(kvs)
+		zzvt.Assert(got == want, "cached-root-equals-uncached-root-in-history")
+	}
+}
